@@ -129,6 +129,26 @@ class SeededApplication:
                 out.append(n)
         return out
 
+    def _handed_to_package_function(self, fa: FA, member: Member) -> Set[int]:
+        """Nodes where the member object is passed as an argument to a module-level function of the package."""
+        out = set()
+        for n, call in fa.calls():
+            if not isinstance(call.func, (ast.Name, ast.Attribute)):
+                continue
+            try:
+                r = self.prog.resolve_expr(fa.fi.module, call.func)
+            except Exception:  # pragma: no cover
+                r = None
+            if not (r and r[0] == "func" and r[1].cls is None):
+                continue
+            for a in list(call.args) + [k.value for k in call.keywords]:
+                try:
+                    if self.fwd.access_of(fa, a, n) == member:
+                        out.add(n)
+                except Exception:  # pragma: no cover
+                    pass
+        return out
+
     def check_member(self, C: ClassInfo, fi: FuncInfo, member: Member, types: Set[tuple], needs: Dict[str, bool],
                      assume: Dict[Term, bool], gen_terms: Set[Term]) -> List[Tuple[Optional[bool], str, int]]:
         """-> [(verdict, detail, line)] one per application site of the member (after pruning)."""
@@ -188,6 +208,11 @@ class SeededApplication:
             if ok:
                 res.append((True, f"{member} applied at line {line} only after set_rng(<generator seeded with "
                                   f"seed and idx>)", line))
+            elif cfg.must_pass(through | self._handed_to_package_function(fa, member), src=start, dst=site):
+                # on every path without a visible injection the member is handed to a function of the package that was not
+                # inlined (a public helper of another module): it may inject there - not decided here
+                res.append((None, f"{member} is handed to a package function before line {line}; whether that function injects "
+                                  f"the per-sample generator is not analysed", line))
             else:
                 p = cfg.path_avoiding(start, site, avoid=through)
                 why = f"{member} is applied at line {line} on a path on which the per-sample generator was not " \
